@@ -1216,3 +1216,15 @@ Proof.
   rewrite upd_loop_dot. apply upd_loop_zone_indep.
 Qed.
 End Agree.
+
+(* ------------------------------------------------------------------------------------------------ selector arms *)
+Lemma selector_addresses_goto_child tbl t :
+  sel_table_ok tbl t = true ->
+  forall fn P L f, In (fn, P, L, f) t -> goto_field tbl P L = Some f.
+Proof.
+  unfold sel_table_ok. intros H fn P L f Hin.
+  apply andb_prop in H as [_ H]. rewrite forallb_forall in H. specialize (H _ Hin).
+  unfold sel_row_ok in H. destruct (goto_field tbl P L) as [g|]; [|discriminate].
+  apply String.eqb_eq in H. now subst.
+Qed.
+
